@@ -68,6 +68,10 @@ def diff_analysis(o, m, compare_hovers=True):
         if "checkPanic" in o and m.get("outcome") != "panic":
             d.append("go check panics (%s), model %s" % (o["checkPanic"][:80], m.get("outcome")))
         return d
+    if m.get("parserModel"):
+        d.append("parser model: " + m["parserModel"])
+    if m.get("outcome") == "parse-only":
+        return d
     if m.get("outcome") != "ok":
         d.append("model %s %s, go ok" % (m.get("outcome"), m.get("detail", "")[:100]))
         return d
@@ -105,4 +109,16 @@ def analyze_both(cases):
     models = [None] * len(cases)
     for i, lo in zip(idx, louts):
         models[i] = parse_lean_analyze(lo) if lo and not lo.startswith("CRASH") else {"outcome": "drivercrash", "detail": lo}
+    # the parser model on the same texts (same acceptance, same tree): a disagreement is attached to the model's
+    # answer and shows up in diff_analysis
+    import parse_model
+    pdis, pstats = parse_model.compare([c["script"] for c in cases], gos)
+    by_text = {d[0]["script"]: d[3][0] for d in pdis}
+    if by_text:
+        for i, c in enumerate(cases):
+            if c["script"] in by_text:
+                if models[i] is None:
+                    models[i] = {"outcome": "parse-only"}
+                models[i]["parserModel"] = by_text[c["script"]]
+    analyze_both.last_parser_stats = pstats
     return gos, models
